@@ -594,6 +594,19 @@ where
                     x.extend((d.len() as u32).to_le_bytes());
                     x.extend(d);
                     alts.push(x);
+                    // a key push with every other prefix byte (hybrid 06 / 07 encodings of the same point,
+                    // wrong parity, invalid tags): accepted only if it re-encodes to exactly these bytes
+                    if d.len() == 33 || d.len() == 65 {
+                        for tag in [0x00u8, 0x01, 0x02, 0x03, 0x04, 0x05, 0x06, 0x07, 0x08] {
+                            if tag != d[0] {
+                                let mut k = d.clone();
+                                k[0] = tag;
+                                let mut x = vec![];
+                                crate::ast::push_data_minimal(&k, &mut x);
+                                alts.push(x);
+                            }
+                        }
+                    }
                     // zero padded / negative zero numbers
                     if d.len() < 4 {
                         let mut p = d.clone();
